@@ -30,12 +30,32 @@
 -/
 namespace Glom.C20.Re
 
+/-- specs are named by numbers (the driver keeps their reprs), so that `decide` can run the model -/
+abbrev Label := Nat
+
+/-- exceptions by identity: the one a leaf raised, the CoalesceError of a Coalesce, and the
+    IndexError of `cur_scope.maps[1]` on a one-map ChainMap -/
+inductive Err where
+  | raised (id : Nat)
+  | coalesce (l : Label)
+  | indexError
+  deriving DecidableEq, Repr
+
+/-- which of the bookkeeping keys that matter a re-entrant evaluation resets after merging the
+    scope it was handed (the other two, `LAST_CHILD_SCOPE` and `CUR_ERROR`, are dead in the copy) -/
+structure Resets where
+  childErrors : Bool      -- `scope[CHILD_ERRORS] = []`
+  noPyframe : Bool        -- `scope.pop(NO_PYFRAME, None)`
+  deriving DecidableEq, Repr
+
+def Resets.ofKeys (ks : List String) : Resets := ⟨ks.contains "CHILD_ERRORS", ks.contains "NO_PYFRAME"⟩
+
 structure BFrame where
-  spec : String
+  spec : Label
   up : Option Nat            -- `UP` / `maps[1]`: `none` for a root or a flattened copy (a one-map ChainMap)
   childErrors : Nat          -- address of the list object bound to `CHILD_ERRORS`
   lastChild : Option Nat
-  curError : Option String
+  curError : Option Err
   noPyframe : Bool
   deriving DecidableEq, Repr
 
@@ -53,23 +73,23 @@ def BSt.modFrame (st : BSt) (a : Nat) (g : BFrame → BFrame) : BSt := { st with
 def BSt.modList (st : BSt) (l : Nat) (g : List Nat → List Nat) : BSt := { st with lists := modAt st.lists l g }
 
 /-- a new scope map with a fresh `CHILD_ERRORS: []` -/
-def BSt.alloc (st : BSt) (spec : String) (up : Option Nat) : BSt × Nat :=
+def BSt.alloc (st : BSt) (spec : Label) (up : Option Nat) : BSt × Nat :=
   ({ frames := st.frames ++ [⟨spec, up, st.lists.length, none, none, false⟩], lists := st.lists ++ [[]] },
    st.frames.length)
 
 /-- `_glom`: `scope = parent.new_child({…, CHILD_ERRORS: []}); pmap[LAST_CHILD_SCOPE] = scope` -/
-def enter (st : BSt) (parent : Nat) (spec : String) : BSt × Nat :=
+def enter (st : BSt) (parent : Nat) (spec : Label) : BSt × Nat :=
   let r := st.alloc spec (some parent)
   (r.1.modFrame parent (fun f => { f with lastChild := some r.2 }), r.2)
 
 /-- `cur.maps[1][CHILD_ERRORS].append(cur); cur.maps[0][CUR_ERROR] = e` for the frame `cur` whose
     parent map is `fu` -/
-def record (st : BSt) (cur : Nat) (fu : BFrame) (e : String) : BSt :=
+def record (st : BSt) (cur : Nat) (fu : BFrame) (e : Err) : BSt :=
   (st.modList fu.childErrors (· ++ [cur])).modFrame cur (fun f => { f with curError := some e })
 
 /-- the `while NO_PYFRAME in cur_scope.maps[0]` loop of the handler; a marked scope without a
     parent map is the IndexError of `cur_scope.maps[1]` -/
-def walk (e : String) : Nat → BSt → Nat → BSt × String
+def walk (e : Err) : Nat → BSt → Nat → BSt × Err
   | 0, st, _ => (st, e)
   | n + 1, st, cur =>
     match st.frames[cur]? with
@@ -77,15 +97,15 @@ def walk (e : String) : Nat → BSt → Nat → BSt × String
     | some f =>
       if f.noPyframe then
         match f.up with
-        | none => (st, "IndexError")
+        | none => (st, .indexError)
         | some u =>
           match st.frames[u]? with
-          | none => (st, "IndexError")
+          | none => (st, .indexError)
           | some fu => walk e n (record st cur fu e) u
       else (st, e)
 
 /-- the `except` handler of `_glom` for the scope `a`; returns the exception that propagates -/
-def onError (st : BSt) (a : Nat) (e : String) : BSt × String :=
+def onError (st : BSt) (a : Nat) (e : Err) : BSt × Err :=
   match st.frames[a]? with
   | none => (st, e)
   | some f =>
@@ -121,40 +141,40 @@ def visibleNoPyframe : Nat → BSt → Nat → Bool
 
 /-- the map a re-entrant evaluation starts from when it is handed the scope of `a`: the flattened
     copy, with the keys in `resets` dropped (`NO_PYFRAME`) or rebound to a fresh list (`CHILD_ERRORS`) -/
-def flatCopy (st : BSt) (a : Nat) (resets : List String) : BSt × Nat :=
-  let nopy := !resets.contains "NO_PYFRAME" && visibleNoPyframe st.frames.length st a
-  if resets.contains "CHILD_ERRORS" then
-    ({ frames := st.frames ++ [⟨"<scope handed in>", none, st.lists.length, none, none, nopy⟩],
+def flatCopy (st : BSt) (a : Nat) (resets : Resets) : BSt × Nat :=
+  let nopy := !resets.noPyframe && visibleNoPyframe st.frames.length st a
+  if resets.childErrors then
+    ({ frames := st.frames ++ [⟨0, none, st.lists.length, none, none, nopy⟩],
        lists := st.lists ++ [[]] }, st.frames.length)
   else
     let shared := ((st.frames[a]?).map (·.childErrors)).getD st.lists.length
-    ({ st with frames := st.frames ++ [⟨"<scope handed in>", none, shared, none, none, nopy⟩] }, st.frames.length)
+    ({ st with frames := st.frames ++ [⟨0, none, shared, none, none, nopy⟩] }, st.frames.length)
 
 inductive How where
   | isolated                         -- `glom(t, inner)`
-  | handed (resets : List String)    -- `Spec(inner).glom(t, scope=scope)` / `glom(t, inner, scope=scope)`
+  | handed (resets : Resets)          -- `Spec(inner).glom(t, scope=scope)` / `glom(t, inner, scope=scope)`
   deriving DecidableEq, Repr
 
 inductive RSpec where
-  | pure (v : String)                                -- a value without a scope of its own (a `default=`)
-  | leaf (label : String) (r : Except String String) -- a spec without children: returns or raises
-  | sub (label : String) (c : RSpec)                 -- a spec that evaluates `c` in its own scope (dict, tuple, Spec(…))
-  | coal (label : String) (c : RSpec)                -- `Coalesce`: like `sub`, but a failure of `c` becomes its own error
+  | pure (v : Nat)                                   -- a value without a scope of its own (a `default=`)
+  | leaf (label : Label) (r : Except Err Nat)       -- a spec without children: returns or raises
+  | sub (label : Label) (c : RSpec)                  -- a spec that evaluates `c` in its own scope (dict, tuple, Spec(…))
+  | coal (label : Label) (c : RSpec)                 -- `Coalesce`: like `sub`, but a failure of `c` becomes its own error
   | both (x y : RSpec)                               -- two children of one scope, one after the other (dict values)
   | orElse (x y : RSpec)                             -- `x`, and `y` when `x` failed (alternatives of a Coalesce)
   | andThen (x y : RSpec)                            -- tuple chain: `x`, then `y` under `chain_child(scope)`
-  | reent (label : String) (how : How) (inner after : RSpec)
+  | reent (label : Label) (how : How) (inner after : RSpec)
     -- a custom spec: `try: <inner call> except GlomError: pass; return scope[glom](target, after, scope)`
 
 /-- the root map of a `glom()` call -/
-def newRoot (st : BSt) : BSt × Nat := st.alloc "<root>" none
+def newRoot (st : BSt) : BSt × Nat := st.alloc 0 none
 
 /-- the map the inner call of a re-entry made from scope `a` starts from -/
 def start (st : BSt) (a : Nat) : How → BSt × Nat
   | .isolated => newRoot st
   | .handed resets => flatCopy st a resets
 
-def eval : RSpec → BSt → Nat → BSt × Except String String
+def eval : RSpec → BSt → Nat → BSt × Except Err Nat
   | .pure v, st, _ => (st, .ok v)
   | .leaf l r, st, p =>
     let s1 := enter st p l
@@ -170,7 +190,7 @@ def eval : RSpec → BSt → Nat → BSt × Except String String
     let s1 := enter st p l
     match eval c s1.1 s1.2 with
     | (st2, .ok v) => (st2, .ok v)
-    | (st2, .error _) => let r := onError st2 s1.2 ("CoalesceError " ++ l); (r.1, .error r.2)
+    | (st2, .error _) => let r := onError st2 s1.2 (.coalesce l); (r.1, .error r.2)
   | .both x y, st, p =>
     match eval x st p with
     | (st2, .error e) => (st2, .error e)
@@ -192,14 +212,14 @@ def eval : RSpec → BSt → Nat → BSt × Except String String
     | (st4, .error e) => let r := onError st4 s1.2 e; (r.1, .error r.2)
 
 /-- what a spec evaluates to, whatever scope it is evaluated in -/
-def denote : RSpec → Except String String
+def denote : RSpec → Except Err Nat
   | .pure v => .ok v
   | .leaf _ r => r
   | .sub _ c => denote c
   | .coal l c =>
     match denote c with
     | .ok v => .ok v
-    | .error _ => .error ("CoalesceError " ++ l)
+    | .error _ => .error (.coalesce l)
   | .both x y =>
     match denote x with
     | .error e => .error e
@@ -216,7 +236,7 @@ def denote : RSpec → Except String String
 
 def How.covers : How → Bool
   | .isolated => true
-  | .handed rs => rs.contains "CHILD_ERRORS" && rs.contains "NO_PYFRAME"
+  | .handed rs => rs.childErrors && rs.noPyframe
 
 /-- every re-entry inside the spec resets the two keys that matter -/
 def RSpec.covered : RSpec → Bool
@@ -232,7 +252,7 @@ def RSpec.covered : RSpec → Bool
 /-! ### the trace skeleton rendered from the bookkeeping (`_unpack_stack`, `format_target_spec_trace`) -/
 
 /-- `_unpack_stack(scope, only_errors=True)` before the push-down: (scope, error, branches) -/
-def unpack : Nat → BSt → Nat → List (Nat × Option String × List Nat)
+def unpack : Nat → BSt → Nat → List (Nat × Option Err × List Nat)
   | 0, _, _ => []
   | n + 1, st, a =>
     match st.frames[a]? with
@@ -250,37 +270,44 @@ def unpack : Nat → BSt → Nat → List (Nat × Option String × List Nat)
           | some _ => here :: unpack n st child
 
 /-- `if cur[3] == nxt[3]: cur[3] = None` -/
-def pushDown : List (Nat × Option String × List Nat) → List (Nat × Option String × List Nat)
+def pushDown : List (Nat × Option Err × List Nat) → List (Nat × Option Err × List Nat)
   | x :: y :: r => (if x.2.1 == y.2.1 then (x.1, none, x.2.2) else x) :: pushDown (y :: r)
   | l => l
 
 /-- `while len(stack) > 1 and stack[-1][3] is None: stack.pop()` -/
-def trimTail : List (Nat × Option String × List Nat) → List (Nat × Option String × List Nat)
+def trimTail : List (Nat × Option Err × List Nat) → List (Nat × Option Err × List Nat)
   | [] => []
   | [x] => [x]
   | x :: r => match trimTail r with
     | [y] => if y.2.1.isNone then [x] else [x, y]
     | r' => x :: r'
 
-/-- the lines of the trace: (depth, text); `+` marks a spec with branches, `X` an error line -/
-def render (root : String) : Nat → BSt → Nat → Nat → List (Nat × String)
+/-- a line of the rendered trace (Target lines are not modelled) -/
+inductive Line where
+  | spec (l : Label)          -- ` - Spec: …` / ` | Spec: …`
+  | branching (l : Label)     -- ` + Spec: …`: the branches follow, one level deeper
+  | error (e : Err)           -- the error a branch ended with
+  deriving DecidableEq, Repr
+
+/-- the lines of the trace with their depth -/
+def render (root : Err) : Nat → BSt → Nat → Nat → List (Nat × Line)
   | 0, _, _, _ => []
   | n + 1, st, depth, a =>
     (trimTail (pushDown (unpack (st.frames.length + 1) st a))).flatMap fun (s, err, branches) =>
-      let label := ((st.frames[s]?).map (·.spec)).getD "?"
-      (if branches.isEmpty then [(depth, "Spec: " ++ label)]
-       else (depth, "+ Spec: " ++ label) :: branches.flatMap (render root n st (depth + 1))) ++
+      let label := ((st.frames[s]?).map (·.spec)).getD 0
+      (if branches.isEmpty then [(depth, Line.spec label)]
+       else (depth, Line.branching label) :: branches.flatMap (render root n st (depth + 1))) ++
       (match err with
-       | some e => if e == root then [] else [(depth, "X " ++ e)]
+       | some e => if e == root then [] else [(depth, Line.error e)]
        | none => [])
+
+inductive CallOut where
+  | val (v : Nat)
+  | err (e : Err) (trace : List (Nat × Line))
+  deriving DecidableEq, Repr
 
 /-- run a call: the root map of `glom()`, the spec under it, and — when it failed — the rendered
     trace skeleton of `err._finalize(scope[LAST_CHILD_SCOPE])` -/
-inductive CallOut where
-  | val (v : String)
-  | err (e : String) (trace : List (Nat × String))
-  deriving DecidableEq, Repr
-
 def runCall (spec : RSpec) : CallOut :=
   let s0 := newRoot ⟨[], []⟩
   match eval spec s0.1 s0.2 with
